@@ -242,6 +242,37 @@ Verdict(F, nb, s) ==
          THEN nb.K[CHOOSE j \in 1..Len(nb.K) : ~ConOK(F, nb, nb.K[j], s)].c
     ELSE "ok"
 
+\* RandomGen(acceptable_error = e) (documentation: "a number of combinations ... that are allowed to be missing (in
+\* which case other combinations will be duplicated)"; it weakens only the rejection step).  CrossExcess counts the
+\* duplicated occurrences - occurrences of a combination beyond its quota - over all chunks of a crossing; the sampler
+\* keeps ONE budget for all crossings it checks by rejection.  Every other clause is unchanged.
+CrossExcess(F, nb, x, s) ==
+    LET X == nb.X[x]
+        S == X.size * X.w
+        n == Len(s)
+    IN  IF S = 0 THEN 0
+        ELSE Cardinality({ z \in X.allowed \X (0..((Max2(n - X.start, 0)) \div S)) \X (1..n) :
+                LET cb == z[1]  ch == z[2]
+                    lo == X.start + ch * S + 1
+                    hi == Min2(lo + S - 1, n)
+                IN z[3] <= CountIn(s, lo, hi, X.fs, cb) - CombW(F, X.fs, cb) * X.w * X.su })
+CrossAllowedOK(F, nb, x, s) ==
+    LET X == nb.X[x] IN \A u \in (X.start + 1)..Len(s) : [j \in 1..Len(X.fs) |-> s[u][X.fs[j]]] \in X.allowed
+RECURSIVE SumExcess(_, _, _, _)
+SumExcess(F, nb, s, x) == IF x = 0 THEN 0 ELSE CrossExcess(F, nb, x, s) + SumExcess(F, nb, s, x - 1)
+VerdictErr(F, nb, s, e) ==
+    IF ~nb.ok THEN "block refused"
+    ELSE IF nb.unsat THEN "design reports an error"
+    ELSE IF Len(s) # nb.T THEN "length"
+    ELSE IF \E t \in 0..(Len(s) - 1) : ~LevelsOK(F, nb, s[t + 1], t) THEN "levels"
+    ELSE IF \E t \in 0..(Len(s) - 1) : ~DerivedOK(F, nb, SubSeq(s, 1, t), s[t + 1], t) THEN "derived"
+    ELSE IF \E t \in 0..(Len(s) - 1) : ~SustainOK(F, nb, SubSeq(s, 1, t), s[t + 1], t) THEN "sustain"
+    ELSE IF \E x \in 1..Len(nb.X) : ~CrossAllowedOK(F, nb, x, s) THEN "crossing"
+    ELSE IF SumExcess(F, nb, s, Len(nb.X)) > e THEN "crossing"
+    ELSE IF \E j \in 1..Len(nb.K) : ~ConOK(F, nb, nb.K[j], s)
+         THEN nb.K[CHOOSE j \in 1..Len(nb.K) : ~ConOK(F, nb, nb.K[j], s)].c
+    ELSE "ok"
+
 \* what may still become valid: used to prune generation.  The new trial was produced by Fill, so its
 \* levels and derived levels are right by construction unless Fill marked "no unique level" (-1).
 PrefixOK(F, nb, s) ==
